@@ -68,6 +68,11 @@ Fixpoint parse_tree (fuel : nat) (s : bytes) : option (ftype * bytes) :=
         | Some (x, 41 :: r') => Some (filter_negate x, r')
         | _ => None
         end
+      else if k =? 82 then                                     (* R( : the filter is rendered once by reference here; a value, not a history *)
+        match parse_tree f r with
+        | Some (x, 41 :: r') => Some (x, r')
+        | _ => None
+        end
       else if k =? 38 then                                     (* &( *)
         match parse_tree f r with
         | Some (x, 44 :: r') =>
@@ -102,8 +107,8 @@ Definition show_send (r : send_result) : bytes :=
 Definition run_how (how : bytes) (f : ftype) : bytes :=
   if beq how (b "find") then show_send (argument_filter (b "find") f)
   else if beq how (b "count") then show_send (argument_filter (b "count") f)
-  else if beq how (b "list") then show_send (argument_filter (b "list Album") f)
-  else if beq how (b "countg") then
+  else if beq how (b "list") || beq how (b "list2") then show_send (argument_filter (b "list Album") f)   (* list2/countg2: filter() called twice, the last one counts *)
+  else if beq how (b "countg") || beq how (b "countg2") then
     match argument_filter (b "count") f with
     | Sent c => show_send (Sent (c ++ b " group Artist"))
     | SendPanic => b "panic"
